@@ -39,14 +39,17 @@ def gen(rng, params):
         phases.append({
             'workers': rng.randint(1, 16),
             'sched_seed': rng.randrange(1 << 30),
-            'crash': {
+            'crash': ({
                 'at_event': rng.randint(1, 7),
                 'torn': {
                     'cls': rng.choice(list(simdisk.TORN_CLASSES) +
                                       ['none', 'complete']),
                     'u': rng.random()
                 }
-            }
+            } if rng.random() < 0.6 else {
+                # die between two I/O events
+                'at_step': rng.choice([1, 3, 6, 10, 15, 25, 40, 80, 160])
+            })
         })
     if rng.random() < params.get('p_pollute', 0.45):
         # another invocation with other flags shares the working directory
